@@ -11,6 +11,12 @@ def spec(tier, seed):
              "run": lambda f, v, w: _mir.vc_applied_patches_recorded(f, v, w)},
             {"name": "main: status 0 only for Ok(true)", "function": "main", "target": "bin",
              "run": lambda f, v, w: _mir.vc_main_exit_status(f, v, w)},
+            {"name": "save_applied_patches: the buffered writer is flushed explicitly before Ok", "function": "save_applied_patches", "target": "bin",
+             "run": lambda f, v, w: _mir.vc_bufwriter_flushed(f, v, w, r"^save_applied_patches$", "c18f1")},
+            {"name": "rollback_and_save_rej_files: the buffered writer is flushed explicitly before Ok", "function": "rollback_and_save_rej_files", "target": "bin",
+             "run": lambda f, v, w: _mir.vc_bufwriter_flushed(f, v, w, r"rollback_and_save_rej_files$", "c18f2")},
+            {"name": "ModifiedFile::write_to: the buffered writer is flushed explicitly before Ok", "function": "ModifiedFile::write_to", "target": "lib",
+             "run": lambda f, v, w: _mir.vc_bufwriter_flushed(f, v, w, r"::write_to$", "c18f3", sig=r"_1: &ModifiedFile")},
         ],
         "level": "other",
         "engine": "mirvc: bounded symbolic execution of the nightly MIR of the driver glue; z3 4.8.12, cross-checked with cvc5",
